@@ -186,6 +186,24 @@ def generate(rng, tier, seed):
                     elif not inside and r.ok:
                         c.fail(f"window outside the PAN accepted (start {start}, length {ln}, PAN of {plen} digits)")
                     yield c
+    # an authentic block followed (or preceded) by surplus blocks: the wrong size is rejected although its first / last part is valid
+    for _ in range(6 * reps):
+        pin, pan, key = digits(rng, rng.randrange(4, 13)), digits(rng, 16), rb(rng, rng.choice((16, 24, 32)))
+        e0 = psec.pinblock.encode_pinblock_iso_0(pin, pan)
+        e2 = psec.pinblock.encode_pinblock_iso_2(pin)
+        e3 = psec.pinblock.encode_pinblock_iso_3(pin, pan)
+        f4 = psec.pinblock.encode_pin_field_iso_4(pin)
+        e4 = psec.pinblock.encipher_pinblock_iso_4(key, pin, pan)
+        for fn, blk, rest in (("pinblock.decode_pinblock_iso_0", e0, (pan,)), ("pinblock.decode_pinblock_iso_2", e2, ()),
+                              ("pinblock.decode_pinblock_iso_3", e3, (pan,)), ("pinblock.decode_pin_field_iso_4", f4, ()),
+                              ("pinblock.decipher_pinblock_iso_4", e4, (pan,))):
+            for bad in (blk + blk, blk + bytes(len(blk)), blk + rb(rng, len(blk)), blk * 3, bytes(len(blk)) + blk, blk + blk[:1], blk[:-1]):
+                c = Case(fn.split(".")[-1] + ":authentic-plus-surplus", {"len": len(bad)})
+                args = ((key, bad) + rest) if fn.endswith("decipher_pinblock_iso_4") else ((bad,) + rest)
+                r = c.call(fn, *args)
+                if r.ok or r.err != "value":
+                    c.fail(f"a block of {len(bad)} bytes (an authentic block plus surplus) was not rejected with ValueError: {'returned ' + repr(r.value) if r.ok else r.err}")
+                yield c
     # character-class helpers over the whole low range and a sample of high code points
     pts = list(range(0, 0x300)) + [0x660, 0x663, 0x966, 0xFF10, 0xFF21, 0x1D7D9, 0xD800, 0xDFFF, 0x10FFFF, 0x2460, 0x212A, 0x17F, 0x130, 0x131]
     for cp in pts:
